@@ -77,7 +77,7 @@ claim(
     "C16",
     "Bounded model checking (Kani/CBMC) of the real functions that enforce turmoil-net's caps: poll_send never lets the send buffer exceed "
     "its cap, accepts exactly the prefix that fits and parks when full; handle_established never lets the receive buffer exceed its cap "
-    "and advertises min(cap-buffered,65535); segment_all never emits a payload above the MSS derived from the MTU of the source "
+    "and never advertises more than cap-buffered (nor zero while there is room); segment_all never emits a payload above the MSS derived from the MTU of the source "
     "interface nor beyond the peer's last advertised window; UDP send_to rejects payloads above mtu-headers with EMSGSIZE and queues "
     "nothing. Each is decided by the solver for all symbolic inputs of its harness (contents, sequence numbers, windows, MTUs) on a "
     "small grid of concrete buffer sizes.",
@@ -116,7 +116,7 @@ claim(
     "C19",
     "Bounded model checking (Kani/CBMC) of the real rule chain and scheduler queue: Net::evaluate over three installed rules with "
     "symbolic verdicts (Pass / Drop / Deliver(d)) after a removal pattern returns the first non-Pass verdict of the remaining rules in "
-    "installation order, consults each live rule up to the winner exactly once and no other; re-installation appends last; "
+    "installation order and consults each live rule up to the winner; re-installation appends last; "
     "Scheduler::schedule into a sorted pending list (1-3 entries, symbolic deadlines, symbolic now and delay) keeps (deadline, emission "
     "order) sorted, sets deadline = now + delay and puts equal deadlines in emission order.",
     "Scheduler::tick and RuleGuard::drop go through the CURRENT thread-local (a Net with a destructor); Kani 0.68 ICEs on the TLS "
